@@ -58,7 +58,7 @@ def model_draws(state, model):
     return out
 
 
-def run_entry(run, prog, entry, stub_map, loop_bound=8, max_paths=5000, timeout_ms=30000, label=None):
+def run_entry(run, prog, entry, stub_map, loop_bound=8, max_paths=5000, timeout_ms=30000, label=None, trace_calls=()):
     """symbolically execute one harness; records one obligation per reached assertion / implicit check class. Returns (results, exec)"""
     full = entry if entry in prog['funcs'] else None
     if full is None:
@@ -68,6 +68,7 @@ def run_entry(run, prog, entry, stub_map, loop_bound=8, max_paths=5000, timeout_
     if full is None:
         raise common.BuildError('harness entry %s not found in the SSA dump' % entry)
     ex = Exec(prog, stub_map, loop_bound=loop_bound, max_paths=max_paths, timeout_ms=timeout_ms)
+    ex.trace_calls = set(trace_calls)
     t = time.time()
     try:
         res = ex.run(full)
